@@ -46,6 +46,11 @@ def shapes(tier):
     out.append({"poly": 3, "noff": 1, "jitter": "sampled", "units": "other"})
     # a reference epoch that is not the first observation
     out.append({"poly": 2, "noff": 0, "jitter": "constant", "units": "default", "tref": "explicit"})
+    # call history: setup_mcmc was already run in this model context with the same data and another choice of samples (the
+    # second call returns early with the new initial point; with OTHER data the model would silently keep the first data
+    # set -- C11 does not quantify over such histories, see DESIGN 7.4)
+    out.append({"poly": 2, "noff": 0, "jitter": "sampled", "units": "default", "history": "other_samples_first"})
+    out.append({"poly": 1, "noff": 1, "jitter": "constant", "units": "other", "history": "other_samples_first"})
     return out
 
 
@@ -81,6 +86,8 @@ def _build(shape):
                                       poly_trend=npoly, v0_offsets=offs, **kw)
         samples = prior.sample(size=5, generate_linear=True, rng=np.random.default_rng(4))
         joker = tj.TheJoker(prior, rng=np.random.default_rng(5))
+        if shape.get("history") == "other_samples_first":
+            joker.setup_mcmc(data, samples[3:4])
         init = joker.setup_mcmc(data, samples)
     return {"model": model, "prior": prior, "samples": samples, "init": init, "data": data, "vun": vun, "Pun": Pun}
 
